@@ -471,7 +471,7 @@ def frame(R):
     each code body is uleb(|body|) ++ body."""
     for sname, add, sid, prefixed in _SECTIONS:
         cls = resolve(W + "::" + sname)
-        for k in (0, 1, 2, 3):
+        for k in ((0, 1, 2, 3) if R.tier != "thorough" else (0, 1, 2, 3, 4, 5, 6)):       # entries per section (thorough tier: up to 6)
             def run(ctx, k=k, cls=cls, add=add, sid=sid, prefixed=prefixed, sname=sname):
                 sec = cls()
                 entries = []
@@ -519,7 +519,7 @@ def frame(R):
 
     # FunctionSection: entries are type indices (LEB) rather than blobs
     FS = resolve(W + "::FunctionSection")
-    for k in (0, 1, 2, 3):
+    for k in ((0, 1, 2, 3) if R.tier != "thorough" else (0, 1, 2, 3, 4, 5, 6)):
         def runf(ctx, k=k):
             sec = FS()
             idx = []
